@@ -20,7 +20,8 @@ RULE = ("histories of 10..120 operations over 4 consumer ids and up to 8 overlap
 ASSUMPTIONS = ["cadence is compared at whole seconds: an attendance less than 1 s from the interval boundary may go either way",
                "the first notification may come at the first attendance after subscribing or one interval later (the statement speaks of the previous notification)",
                "objects have validity >> history length, so expiry plays no role here (C12 decides it)"]
-REQUIRED_COUNTERS = ["attendances", "must_notify_checked", "must_not_notify_checked", "callbacks_compared", "after_unsubscribe_checked", "invalid_requests_checked"]
+REQUIRED_COUNTERS = ["attendances", "must_notify_checked", "must_not_notify_checked", "callbacks_compared", "after_unsubscribe_checked", "invalid_requests_checked",
+                     "after_unsubscribe_inside_attendance_checked"]
 
 CONSUMERS = (2, 16, 1, 14)
 TYPES = (2, 1, 16)
@@ -48,7 +49,9 @@ def gen(rng, maxlen):
                 order = [{"attr": a, "desc": rng.random() < 0.5} for a in rng.sample(["timestamp", "stationId", "latitude"], rng.randrange(1, 3))]
             ops.append({"op": "sub", "app": rng.choice(CONSUMERS), "types": list(rng.choice(((2,), (1,), (2, 16), (2, 1, 16)))), "filter": flt,
                         "mult": rng.choice((None, 0, 1, 1, 2, 3, 5)), "interval_ms": rng.choice((None, 1, 1, 500, 1000, 2000, 5000)), "order": order,
-                        "invalid": rng.choice((None,) * 5 + ("type", "priority", "interval", "multiplicity"))})
+                        "invalid": rng.choice((None,) * 5 + ("type", "priority", "interval", "multiplicity")),
+                        # what the consumer's callback does when it is invoked (re-entrant use of IF.LDM.4 from a notification)
+                        "cb_action": rng.choice((None,) * 6 + ("unsub_self", "unsub_other", "unsub_other", "dereg_self", "dereg_other"))})
         elif r < 0.36:
             ops.append({"op": "unsub", "pick": rng.randrange(1 << 16), "bogus": rng.random() < 0.15})
         elif r < 0.70:
@@ -82,6 +85,30 @@ def gen_cadence(rng, maxlen):
     return {"ops": ops}
 
 
+def gen_reentrant(rng, maxlen):
+    """Directed class: several subscriptions that all match, whose callbacks unsubscribe / deregister themselves or each
+    other while an attendance pass is under way (the pass works on a snapshot of the subscription list)."""
+    apps = rng.sample(CONSUMERS, rng.randrange(1, 4))
+    ops = [{"op": "reg_c", "app": a} for a in apps]
+    ops.append({"op": "add", "type": 2, "seed": rng.randrange(1 << 30)})
+    for _ in range(rng.randrange(2, 6)):
+        ops.append({"op": "sub", "app": rng.choice(apps), "types": [2], "filter": None, "mult": rng.choice((None, 1)),
+                    "interval_ms": rng.choice((None, None, 1, 1000)), "order": None, "invalid": None,
+                    "cb_action": rng.choice((None, None, "unsub_self", "unsub_other", "unsub_other", "unsub_next", "unsub_next", "dereg_self", "dereg_other"))})
+    for _ in range(rng.randrange(3, 10)):
+        r = rng.random()
+        if r < 0.3:
+            ops.append({"op": "add", "type": 2, "seed": rng.randrange(1 << 30)})
+        elif r < 0.6:
+            ops.append({"op": "adv", "dt": rng.choice((1.0, 2.0, 3.0))})
+        elif r < 0.9:
+            ops.append({"op": "attend"})
+        else:
+            ops.append({"op": "sub", "app": rng.choice(apps), "types": [2], "filter": None, "mult": None, "interval_ms": rng.choice((None, 1)), "order": None,
+                        "invalid": None, "cb_action": rng.choice((None, "unsub_other", "unsub_next"))})
+    return {"ops": ops}
+
+
 def run_case(c, res):
     from vf.vclock import VClock
     from vf import ldmharness as H
@@ -102,11 +129,62 @@ def run_case(c, res):
         attend_log = []
         real_attend = svc.attend_subscriptions
 
+        seq = [0]            # one event counter for callbacks, ends of subscriptions and attendance passes
+
+        def tick():
+            seq[0] += 1
+            return seq[0]
+
         def hooked_attend():
             t_its = H.its_now(clock)
             mark = {k: len(s["log"]) for k, s in subs.items()}
+            q0 = tick()
             real_attend()
-            attend_log.append((t_its, mark))
+            attend_log.append((t_its, mark, q0, tick()))
+
+        def end_sub(s, why):
+            if s["active"]:
+                s["active"] = False
+                s["ended_by"] = why
+                s["ended_seq"] = tick()
+
+        def do_cb_action(key, action):
+            """The consumer reacts to a notification by using IF.LDM.4 again (from inside the attendance pass)."""
+            me = subs.get(key)
+            if me is None or action is None:
+                return
+            res.count(f"callback_actions[{action}]")
+            if action in ("unsub_self", "unsub_other", "unsub_next"):
+                if action == "unsub_self":
+                    tgt = me if me["active"] else None
+                else:
+                    keys = list(subs)
+                    later = [k2 for k2 in keys[keys.index(key) + 1:] if subs[k2]["active"]]
+                    others = [k2 for k2 in keys if k2 != key and subs[k2]["active"]]
+                    pool = later if action == "unsub_next" else others
+                    tgt = subs[pool[0]] if pool else None
+                if tgt is None:
+                    return
+                r = i4.unsubscribe_data_consumer(UnsubscribeDataConsumerReq(tgt["op"]["app"], tgt["sid"]))
+                if int(r.result) == 0:
+                    end_sub(tgt, "unsubscription")
+                    res.count("ended_inside_attendance")
+                else:
+                    res.violation("C14:valid-unsubscribe-refused[from-callback]", f"{r.result!s}", {"ops": c["ops"]})
+            else:
+                app = me["op"]["app"]
+                if action == "dereg_other":
+                    oth = [a for a in consumers if a != app]
+                    if not oth:
+                        return
+                    app = oth[0]
+                if app in consumers:
+                    i4.deregister_data_consumer(DeregisterDataConsumerReq(app))
+                    consumers.discard(app)
+                    for s2 in subs.values():
+                        if s2["op"]["app"] == app and s2["active"]:
+                            end_sub(s2, "deregistration")
+                            res.count("ended_inside_attendance")
         svc.attend_subscriptions = hooked_attend
         judged_upto = 0
         nsub = 0
@@ -125,8 +203,7 @@ def run_case(c, res):
                         consumers.discard(op["app"])
                         for s in subs.values():
                             if s["op"]["app"] == op["app"] and s["active"]:
-                                s["active"] = False
-                                s["ended_by"] = "deregistration"
+                                end_sub(s, "deregistration")
                 elif k == "sub":
                     nsub += 1
                     f = None
@@ -153,8 +230,9 @@ def run_case(c, res):
                     log = []
                     key = f"s{nsub}"
 
-                    def cb(resp, log=log):
-                        log.append((H.its_now(clock), [norm(x) for x in resp.data_objects], resp.application_id, int(resp.result)))
+                    def cb(resp, log=log, key=key, action=op.get("cb_action")):
+                        log.append((H.its_now(clock), [norm(x) for x in resp.data_objects], resp.application_id, int(resp.result), tick()))
+                        do_cb_action(key, action)
                     req = SubscribeDataobjectsReq(application_id=op["app"], data_object_type=types, priority=prio, filter=f, notify_time=nt,
                                                   multiplicity=mult, order=order)
                     r = i4.subscribe_data_consumer(req, cb)
@@ -185,8 +263,7 @@ def run_case(c, res):
                                 i4.unsubscribe_data_consumer(UnsubscribeDataConsumerReq(op["app"], r.subscription_id))
                                 for s in subs.values():
                                     if s["sid"] == r.subscription_id:
-                                        s["active"] = False
-                                        s["ended_by"] = "unsubscription"
+                                        end_sub(s, "unsubscription")
                             else:
                                 subs[key] = {"op": op, "sid": r.subscription_id, "last": now, "notified": 0, "active": True, "log": log, "ended_by": None}
                 elif k == "unsub":
@@ -202,8 +279,7 @@ def run_case(c, res):
                         if int(r.result) != 0:
                             res.violation("C14:valid-unsubscribe-refused", f"{r.result!s}", ctx)
                         else:
-                            s["active"] = False
-                            s["ended_by"] = "unsubscription"
+                            end_sub(s, "unsubscription")
                 elif k == "add":
                     rng = random.Random(op["seed"])
                     msg = H.message(rng, op["type"])
@@ -227,7 +303,7 @@ def run_case(c, res):
                 return
             # ---------------------------------------------------------------- judge new attendance passes
             while judged_upto < len(attend_log):
-                t_att, mark = attend_log[judged_upto]
+                t_att, mark, q0, q1 = attend_log[judged_upto]
                 judged_upto += 1
                 res.count("attendances")
                 objs_now = list(store.values())
@@ -238,7 +314,18 @@ def run_case(c, res):
                     sop = s["op"]
                     if not s["active"]:
                         res.count("after_unsubscribe_checked")
-                        if new:
+                        eq = s.get("ended_seq", 0)
+                        if q0 < eq < q1:
+                            # ended by a callback while this pass was under way: notifications before that instant are
+                            # legitimate, any later one is not
+                            res.count("after_unsubscribe_inside_attendance_checked")
+                            late = [e for e in new if e[4] > eq]
+                            if late:
+                                res.violation(f"C14:callback-after-{s['ended_by']}[ended-by-a-callback-of-the-same-attendance]",
+                                              f"subscription {key} of consumer {sop['app']} was notified after its {s['ended_by']} had been acknowledged inside the same attendance pass", ctx)
+                            if new and not late:
+                                s["notified"] += 1
+                        elif new:
                             res.violation(f"C14:callback-after-{s['ended_by']}", f"subscription {key} of consumer {sop['app']} was notified after its {s['ended_by']}", ctx)
                         continue
                     sel = [o["rec"] for o in objs_now if o["type"] in sop["types"]]
@@ -272,7 +359,7 @@ def run_case(c, res):
                     else:
                         res.count("either_unjudged")
                     if new:
-                        t_cb, got, app_id, result = new[0]
+                        t_cb, got, app_id, result, _q = new[0]
                         s["last"] = t_att
                         s["notified"] += 1
                         res.count("callbacks_compared")
@@ -291,7 +378,7 @@ def run_case(c, res):
 def run_shard(spec, res):
     rng = random.Random(spec["seed"])
     for k in range(spec["cases"]):
-        c = gen_cadence(rng, spec["maxlen"]) if k % 4 == 3 else gen(rng, spec["maxlen"])
+        c = gen_cadence(rng, spec["maxlen"]) if k % 4 == 3 else gen_reentrant(rng, spec["maxlen"]) if k % 4 == 1 else gen(rng, spec["maxlen"])
         run_case(c, res)
         res.case(repr(c))
         if k == 0:
